@@ -31,18 +31,21 @@ ACTIONS = [("DoSeedCompartment", "SeedAddCompartment"), ("DoSeedFlow", "SeedAddF
 
 CONSTS = {
     "quick": [
-        dict(Pool="{1, 2, 4}", MaxComps=3, MaxFlows=3, OutKinds="{1, 2}", FlowKinds="{3}", MaxOps=2, Thin=200, FullDepth=1, SeedThin=1, SeedThinFrom=9, SampleMod=48),
+        dict(Pool="{1, 2, 4}", MaxComps=3, MaxFlows=3, OutKinds="{1, 2}", FlowKinds="{3}", MaxOps=2, Thin=200, FullDepth=1, SeedThin=1, SeedThinFrom=9, SeedAscending="FALSE", SeedInputs="TRUE", EmitConfluence="FALSE", SampleMod=48),
+        # 4-compartment family (one node order per system, second-order rates): every system with a confluence outside the
+        # dosing-reachable part (SRC1 -> POOL <- SRC2) is a case
+        dict(Pool="{1, 2, 4, 5}", MaxComps=4, MaxFlows=3, OutKinds="{1}", FlowKinds="{4}", MaxOps=0, Thin=1, FullDepth=0, SeedThin=1, SeedThinFrom=9, SeedAscending="TRUE", SeedInputs="FALSE", EmitConfluence="TRUE", SampleMod=40),
     ],
     "thorough": [
         # all 3-compartment digraphs over a 4-name pool, three operations deep
-        dict(Pool="{1, 2, 4, 5}", MaxComps=3, MaxFlows=4, OutKinds="{1, 2, 3}", FlowKinds="{1}", MaxOps=2, Thin=128, FullDepth=1, SeedThin=1, SeedThinFrom=9, SampleMod=64),
+        dict(Pool="{1, 2, 4, 5}", MaxComps=3, MaxFlows=4, OutKinds="{1, 2, 3}", FlowKinds="{1}", MaxOps=2, Thin=128, FullDepth=1, SeedThin=1, SeedThinFrom=9, SeedAscending="FALSE", SeedInputs="TRUE", EmitConfluence="FALSE", SampleMod=64),
         # 4 compartments incl. the special names EFFECT / METABOLITE (seed flows thinned)
-        dict(Pool="{1, 2, 3, 4, 5}", MaxComps=4, MaxFlows=5, OutKinds="{1, 2}", FlowKinds="{1}", MaxOps=3, Thin=512, FullDepth=0, SeedThin=6, SeedThinFrom=3, SampleMod=64),
+        dict(Pool="{1, 2, 3, 4, 5}", MaxComps=4, MaxFlows=5, OutKinds="{1, 2}", FlowKinds="{1}", MaxOps=3, Thin=512, FullDepth=0, SeedThin=6, SeedThinFrom=3, SeedAscending="FALSE", SeedInputs="TRUE", EmitConfluence="TRUE", SampleMod=64),
         # nonlinear flows between compartments
-        dict(Pool="{1, 2, 5}", MaxComps=3, MaxFlows=3, OutKinds="{1}", FlowKinds="{1, 2, 3}", MaxOps=2, Thin=64, FullDepth=1, SeedThin=1, SeedThinFrom=9, SampleMod=32),
+        dict(Pool="{1, 2, 5}", MaxComps=3, MaxFlows=3, OutKinds="{1}", FlowKinds="{1, 2, 3}", MaxOps=2, Thin=64, FullDepth=1, SeedThin=1, SeedThinFrom=9, SeedAscending="FALSE", SeedInputs="TRUE", EmitConfluence="FALSE", SampleMod=32),
     ],
 }
-COV = dict(Pool="{1, 2}", MaxComps=2, MaxFlows=1, OutKinds="{1, 2}", FlowKinds="{3}", MaxOps=1, Thin=4, FullDepth=0, SeedThin=1, SeedThinFrom=9, SampleMod=1000003)
+COV = dict(Pool="{1, 2}", MaxComps=2, MaxFlows=1, OutKinds="{1, 2}", FlowKinds="{3}", MaxOps=1, Thin=4, FullDepth=0, SeedThin=1, SeedThinFrom=9, SeedAscending="FALSE", SeedInputs="TRUE", EmitConfluence="FALSE", SampleMod=1000003)
 
 
 def _cfg(path, consts, seed):
@@ -118,7 +121,8 @@ class _Env:
         return self.sp.Function((ren or {}).get(f"A_{name}", f"A_{name}"))(self.t)
 
     def rate(self, src, dst, kind, ren=None):
-        """kind 1: symbol / CL/V; 2: Michaelis-Menten; 3: sum of the parts 31 + 32 (KA + KB, (Q1 + Q2)/V)"""
+        """kind 1: symbol / CL/V; 2: Michaelis-Menten; 3: sum of the parts 31 + 32 (KA + KB, (Q1 + Q2)/V);
+        4: second order (K2_src_dst * A_dst(t), KD_src * A_src(t) to the output)"""
         ren = ren or {}
         S = lambda n: self.sp.Symbol(ren.get(n, n))  # noqa: E731
         out = dst == "OUT"
@@ -128,6 +132,8 @@ class _Env:
             return S(f"K_{src}_{dst}")
         if kind == 2:
             return S(f"VM_{src}_{dst}") / (S(f"KM_{src}_{dst}") + self.amount(src, ren))
+        if kind == 4:
+            return S(f"KD_{src}") * self.amount(src, ren) if out else S(f"K2_{src}_{dst}") * self.amount(dst, ren)
         if kind == 31:
             return S(f"Q1_{src}") / S(f"V_{src}") if out else S(f"KA_{src}_{dst}")
         if kind == 32:
@@ -429,7 +435,8 @@ def check_case(case, seed=0):
 
     m = guarded("to_compartmental_system", back)
     if m:
-        bad("to_compartmental_system", "not_equivalent", f"to_compartmental_system(names, eqs) does not give back the system: {m}")
+        bad("to_compartmental_system", "not_equivalent", f"to_compartmental_system(names, eqs) does not give back the system: {m}",
+            has_second_order_flow=any(f["kind"] == 4 and f["dst"] != "OUT" for f in case["flows"]))
 
     # ---- serialisation
     def ser():
@@ -496,13 +503,13 @@ def check_case(case, seed=0):
                 bad("subs", "content_changed", m, sub=kind)
 
     # one symbol of a rate gets a fresh name
-    rate_syms = [s for s in syms if str(s).startswith(("K_", "KA_", "KB_", "CL_", "VM_", "Q1_"))]
+    rate_syms = [s for s in syms if str(s).startswith(("K_", "KA_", "KB_", "CL_", "VM_", "Q1_", "K2_", "KD_"))]
     if rate_syms:
         s0 = rate_syms[rng.randrange(len(rate_syms))]
         ren = {str(s0): "Z_" + str(s0)}
         subs_case(f"subs({s0} -> {ren[str(s0)]})", {s0: E.Expr.symbol(ren[str(s0)])}, ren, "rename")
     # a state variable is renamed: A_c(t) -> B_c(t), preferably one that occurs in a nonlinear rate
-    nl = sorted({f["src"] for f in case["flows"] if f["kind"] == 2})
+    nl = sorted({f["src"] for f in case["flows"] if f["kind"] in (2, 4)} | {f["dst"] for f in case["flows"] if f["kind"] == 4 and f["dst"] != "OUT"})
     c0 = nl[rng.randrange(len(nl))] if nl else names[rng.randrange(n)]
     ren = {f"A_{c0}": f"B_{c0}"}
     subs_case(f"subs(A_{c0}(t) -> B_{c0}(t))", {E.Expr(E.amount(c0)): E.Expr(E.amount(c0, ren))}, ren, "amount_function")
@@ -545,7 +552,9 @@ def main(tier: str, seed: int) -> int:
     rng = random.Random(seed)
     rng.shuffle(cases)
     budget = {"quick": 600, "thorough": 40000}[tier]
-    work = cases[:budget]
+    fam = [c for c in cases if any(f["kind"] == 4 for f in c["flows"]) or len(c["nodes"]) >= 4]   # second-order / 4-compartment class
+    rest = [c for c in cases if c not in fam] if tier == "quick" else cases
+    work = (rest[: budget - min(len(fam), 200)] + fam[:200]) if tier == "quick" else cases[:budget]
     chunks = [(work[i : i + 10], seed) for i in range(0, len(work), 10)]
     results = [r for ch in core.pmap(_replay_chunk, chunks, procs=16, chunk=1) for r in ch]
     ndrift, nchecks, nontrivial = 0, 0, 0
